@@ -83,8 +83,8 @@ struct SlabEngine : Engine {
 		static const char *mn[] = {"SimMutex", "ticket_spinlock", "simple_spinlock"};
 		if (c < 0 || c >= PC_N * MT_N) return "?";
 		if (s[c].empty()) {
-			const PolicyInfo &q = policy_info[c / MT_N]; char b[200];
-			snprintf(b, sizeof b, "%s:%s%s,page 0x%zx,slab 0x%zx,sb 0x%zx,%d buckets / %s", q.name, q.aligned ? "aligned" : "unaligned", q.poison ? ",poison" : "", q.pagesize, q.slabsize, q.sb_size, q.num_buckets, mn[c % MT_N]);
+			const PolicyInfo &q = policy_info[c / MT_N]; char b[260];
+			snprintf(b, sizeof b, "%s:%s%s,page 0x%zx%s,slab 0x%zx%s,sb 0x%zx%s,%d buckets%s / %s", q.name, q.aligned ? "aligned" : "unaligned", q.poison ? ",poison" : "", q.pagesize, q.d_page ? "" : "(default)", q.slabsize, q.d_slab ? "" : "(default)", q.sb_size, q.d_sb ? "" : "(default)", q.num_buckets, q.d_nb ? "" : "(default)", mn[c % MT_N]);
 			s[c] = b;
 		}
 		return s[c].c_str();
@@ -135,7 +135,7 @@ struct SlabEngine : Engine {
 		int polc;
 		{ // weighted choice over all compiled geometries: the two 256 KiB-slab defaults are expensive, poison matters most for C03
 			int w[PC_N], tot = 0;
-			for (int i = 0; i < PC_N; i++) { w[i] = policy_info[i].slabsize >= 0x40000 ? 5 : 10; if (prof == "C03" && policy_info[i].poison) w[i] *= 2; tot += w[i]; }
+			for (int i = 0; i < PC_N; i++) { w[i] = policy_info[i].slabsize >= 0x20000 ? 5 : 10; if (prof == "C03" && policy_info[i].poison) w[i] *= 2; tot += w[i]; }
 			int r = (int)rng.below(tot); polc = 0;
 			for (int i = 0; i < PC_N; i++) { if (r < w[i]) { polc = i; break; } r -= w[i]; }
 			(void)c;
@@ -146,7 +146,8 @@ struct SlabEngine : Engine {
 		p.cfg = polc * MT_N + mtx;
 		const PolicyInfo &P = policy_info[polc];
 		// the geometry is recorded by value so that a replay finds it even if the compiled list differs
-		p.knobs["g_page"] = (int64_t)P.pagesize; p.knobs["g_slab"] = (int64_t)P.slabsize; p.knobs["g_sb"] = (int64_t)P.sb_size; p.knobs["g_nb"] = P.num_buckets; p.knobs["g_al"] = P.aligned; p.knobs["g_po"] = P.poison;
+		// (declared values: 0 = the policy does not declare that constant)
+		p.knobs["g_page"] = (int64_t)P.d_page; p.knobs["g_slab"] = (int64_t)P.d_slab; p.knobs["g_sb"] = (int64_t)P.d_sb; p.knobs["g_nb"] = P.d_nb; p.knobs["g_al"] = P.aligned; p.knobs["g_po"] = P.poison;
 		bool multi;
 		if (prof == "C05") multi = true;
 		else if (prof == "C04") multi = rng.chance(35, 100);
@@ -154,7 +155,7 @@ struct SlabEngine : Engine {
 		else multi = rng.chance(30, 100);
 		p.ntasks = multi ? 2 + (int)rng.below(prof == "C05" ? 7 : 3) : 1;
 		if (prof == "C05" && p.ntasks > 4 && rng.chance(1, 2)) p.ntasks = 2 + (int)rng.below(3);
-		bool big_slabs = P.slabsize >= 0x40000;
+		bool big_slabs = P.slabsize >= 0x20000;
 		int maxops = tier ? 60 : 28;
 		if (p.ntasks >= 5) maxops = tier ? 24 : 12;
 		int focus = (prof == "C05" || rng.chance(1, 2)) ? (int)rng.below(big_slabs ? 4 + P.num_buckets - 4 : P.num_buckets) : -1;
@@ -498,6 +499,8 @@ struct SlabEngine : Engine {
 		int want = p.cfg / MT_N;
 		if (!p.knobs.count("g_page")) return want < PC_N ? want : 0;
 		for (int k = 0; k < PC_N; k++) { int i = (want + k) % PC_N; const PolicyInfo &q = policy_info[i];
+			if ((int64_t)q.d_page == p.knob("g_page") && (int64_t)q.d_slab == p.knob("g_slab") && (int64_t)q.d_sb == p.knob("g_sb") && q.d_nb == p.knob("g_nb") && q.aligned == (p.knob("g_al") != 0) && q.poison == (p.knob("g_po") != 0)) return i; }
+		for (int k = 0; k < PC_N; k++) { int i = (want + k) % PC_N; const PolicyInfo &q = policy_info[i]; // replay files written before partially declared policies existed recorded the values in effect
 			if ((int64_t)q.pagesize == p.knob("g_page") && (int64_t)q.slabsize == p.knob("g_slab") && (int64_t)q.sb_size == p.knob("g_sb") && q.num_buckets == p.knob("g_nb") && q.aligned == (p.knob("g_al") != 0) && q.poison == (p.knob("g_po") != 0)) return i; }
 		fprintf(stderr, "geometry of this plan is not compiled into this binary (page 0x%llx slab 0x%llx sb 0x%llx nb %lld): rebuild with VERIF_GEOMS\n", (long long)p.knob("g_page"), (long long)p.knob("g_slab"), (long long)p.knob("g_sb"), (long long)p.knob("g_nb"));
 		exit(3);
